@@ -19,7 +19,10 @@ from ascmhl.__version__ import ascmhl_tool_version
 threading.excepthook = lambda a: None      # the worker thread's tracebacks (stderr) are not part of the observation
 
 SERVERS = ["ok", "http_error", "conn_error", "bad_json", "no_tag", "bad_version", "other_exception", "hang"]
-VERSIONS = {"newer": "99.1.0", "equal": ascmhl_tool_version, "older": "0.0.1", "pre": "99.1.0rc1", "dev": "99.1.0.dev3", "garbage": "not a version !", "missing": None}
+VERSIONS = {"newer": "99.1.0", "equal": ascmhl_tool_version, "older": "0.0.1", "pre": "99.1.0rc1", "dev": "99.1.0.dev3", "garbage": "not a version !", "missing": None,
+            # spellings of the same classes that parse differently: v-prefix, dev release number 0, a0, post+dev, local version
+            "newer_v": "v99.1.0", "dev0": "v99.1.0-dev", "dev0b": "99.1.0.dev0", "pre0": "99.1.0a0", "postdev": "99.0.post1.dev0", "older_dev": "0.0.1.dev0"}
+VERSION_CLASS = {"newer_v": "newer", "dev0": "dev", "dev0b": "dev", "pre0": "pre", "postdev": "dev", "older_dev": "older"}
 TIMINGS = {"before": 0.0, "during_join": 0.35, "after_timeout": 1.7}
 NOTICE = "Please update to the latest ascmhl version using `pip3 install -U ascmhl`."
 
@@ -100,7 +103,7 @@ def run_case(args):
         out = res.stdout
         has_notice = NOTICE in out
         stripped = out.replace(NOTICE + "\n", "") if has_notice else out
-        return {"tid": "upd-%d" % k, "i": 0, "group": group, "server": server, "version": version, "timing": timing if server != "hang" else "never", "cmd": cmd,
+        return {"tid": "upd-%d" % k, "i": 0, "group": group, "server": server, "version": VERSION_CLASS.get(version, version), "version_text": str(VERSIONS.get(version)), "timing": timing if server != "hang" else "never", "cmd": cmd,
                 "exit": res.exit_code, "ref_exit": ref.exit_code, "stdout_same": stripped == ref_out, "notice": has_notice,
                 "notice_last": (not has_notice) or out.endswith(NOTICE + "\n"), "notice_count": out.count(NOTICE),
                 "elapsed_ms": int(elapsed * 1000), "ref_ms": 0, "op": {"op": cmd},
